@@ -19,7 +19,7 @@ namespace SM
 
 structure Beh where
   f : String := "c"
-  l : String := "r0"
+  l : String := "r0"                   -- one action, or a comma separated list (one per call, the last one repeats)
   takes : List (Option Nat) := []      -- none = all
   ur : Option (Nat × Nat) := none      -- reply (attempt) at upload call n with response rid
   us : Option (Nat × Nat) := none      -- suspend at upload call n for k rounds
@@ -38,6 +38,8 @@ structure HApp where
   curR : Nat := 0
   nupload : Nat := 0
   suspOnceFinal : Bool := false
+  nfinal : Nat := 0                    -- calls without upload data after the first one, so far
+  upgradeAllowed : Bool := false       -- MHD_ALLOW_UPGRADE
   resumeReq : Option Nat := none
   deriving Inhabited
 
@@ -50,10 +52,13 @@ def mkResp (a : HApp) (rid : Nat) : Resp :=
   let s := lookup a.resps rid
   { rid := rid,
     freeCb := s.kind == "freecb" || s.kind == "cb-known" || s.kind == "cb-unknown",
-    body := true,
+    body := 200 ≤ s.code,                 -- 1xx: no reply body (is_reply_body_needed)
     emptyBody := s.size == 0 || s.kind == "empty",
     chunkedBody := s.kind == "cb-unknown",
-    valid := 100 ≤ s.code && s.code ≤ 999 && s.code != 101 }
+    valid := 100 ≤ s.code && s.code ≤ 999 &&
+             (if s.kind == "upgrade" then s.code == 101 && a.upgradeAllowed else s.code != 101),
+    interim := s.code == 102,
+    upgrade := s.kind == "upgrade" }
 
 def ridOf (s : String) : Nat := (s.drop 1).toString.toNat?.getD 0
 
@@ -62,7 +67,7 @@ def harnessHandle (a : HApp) (ci : CallInfo) : HApp × Dec :=
   | none =>
       -- first call of a request
       let r := a.nreq
-      let a := { a with nreq := a.nreq + 1, curR := r, nupload := 0, suspOnceFinal := false }
+      let a := { a with nreq := a.nreq + 1, curR := r, nupload := 0, suspOnceFinal := false, nfinal := 0 }
       let b := lookup a.behs r
       let ctx := some (r + 1)
       if b.f.startsWith "r" then (a, { act := .reply (mkResp a (ridOf b.f)) false, ctxOut := ctx })
@@ -93,11 +98,16 @@ def harnessHandle (a : HApp) (ci : CallInfo) : HApp × Dec :=
         | none, none => (a, { take := take, act := .cont, ctxOut := some cx })
       else
         -- "final" phase of the harness (any call without upload data after the first)
-        if b.l.startsWith "s" && !a.suspOnceFinal then
-          ({ a with suspOnceFinal := true, resumeReq := some (ridOf b.l) }, { act := .suspend, ctxOut := some cx })
-        else if b.l == "no" then (a, { act := .fail, ctxOut := some cx })
-        else if b.l == "c" then (a, { act := .cont, ctxOut := some cx })
-        else if b.l.startsWith "r" then (a, { act := .reply (mkResp a (ridOf b.l)) false, ctxOut := some cx })
+        let acts := b.l.splitOn ","
+        let k := a.nfinal
+        let a := { a with nfinal := k + 1 }
+        let last := k + 1 ≥ acts.length
+        let act := (acts[min k (acts.length - 1)]?).getD "r0"
+        if act.startsWith "s" && !(last && a.suspOnceFinal) then
+          ({ a with suspOnceFinal := a.suspOnceFinal || last, resumeReq := some (ridOf act) }, { act := .suspend, ctxOut := some cx })
+        else if act == "no" then (a, { act := .fail, ctxOut := some cx })
+        else if act == "c" then (a, { act := .cont, ctxOut := some cx })
+        else if act.startsWith "r" then (a, { act := .reply (mkResp a (ridOf act)) false, ctxOut := some cx })
         else (a, { act := .reply (mkResp a 0) false, ctxOut := some cx })
 
 def harnessApp : App HApp :=
@@ -126,6 +136,7 @@ structure DConn where
   readReady : Bool := false        -- epoll: MHD_EPOLL_STATE_READ_READY
   inEready : Bool := false         -- epoll: put on the eready list by resume
   hdrFail : Bool := false          -- the pool cannot take the header of MHD's error reply (first attempt)
+  upClosed : Bool := false         -- MHD_UPGRADE_ACTION_CLOSE called by the application
   trace : List Ev := []            -- events applied so far (reverse order)
 
 instance : Inhabited DConn := ⟨{ idx := 0, conn := Conn.init default }⟩
@@ -134,6 +145,7 @@ structure D where
   mode : String := "select"
   timeoutMs : Nat := 0
   suspend : Bool := false
+  upgrade : Bool := false
   uriLog : Bool := true
   started : Bool := false
   stopped : Bool := false
@@ -160,6 +172,8 @@ def showEv (c : Nat) : LEv → String
   | .completed code _ => s!"completed c={c} code={code}"
   | .invalidate => s!"invalidate c={c}"
   | .freeCb rid => s!"free-cb rid={rid}"
+  | .interimSent => s!"interim-sent c={c}"
+  | .upgrade => s!"upgrade c={c}"
 
 /-- apply one connection event through the model, record it, emit its log -/
 def apply (d : D) (dc : DConn) (e : Ev) : DConn × List String :=
@@ -187,6 +201,7 @@ def mkEnv (d : D) (dc : DConn) : IdleEnv :=
     noSpace := ns.isSome,
     chunkExt := ns.getD false,
     errAllocFail := d.failCalloc,
+    upgradeFail := d.failCalloc,
     errHdrFail1 := dc.hdrFail,
     epollAdd := if d.cfg.epoll && !dc.conn.inEpollSet && !dc.conn.suspended
                    && ((eliRead dc.conn && !dc.readReady)) then some (!d.failEpollAdd) else none }
@@ -315,7 +330,13 @@ def processResumes (d : D) : D × List String :=
   d.conns.foldl (fun (acc : D × List String) dc0 =>
     let (d, out) := acc
     let dc := ((getConn d dc0.idx).getD dc0)
-    if dc.resuming && dc.conn.suspended then
+    if dc.conn.state == CState.upgrade then
+      -- an upgraded connection leaves the suspended list only when the application has closed it
+      if dc.upClosed && dc.conn.suspended && !dc.conn.inCleanup then
+        let (dc1, o) := apply d { dc with upClosed := false } .upgradeDone
+        (setConn d dc1, out ++ o)
+      else (d, out)
+    else if dc.resuming && dc.conn.suspended then
       let (dc1, o) := apply d { dc with resuming := false } .resume
       let dc1 := { dc1 with lastActivity := if d.timeoutMs != 0 then d.now else dc1.lastActivity,
                             actSeq := if d.timeoutMs != 0 then d.seq else dc1.actSeq,
@@ -442,7 +463,13 @@ def stopDaemon (d : D) : D × List String :=
   let (d, o0) := d.conns.foldl (fun (acc : D × List String) dc0 =>
     let (d, out) := acc
     let dc := ((getConn d dc0.idx).getD dc0)
-    if dc.resuming && dc.conn.suspended then
+    if dc.conn.state == CState.upgrade then
+      -- close_all_connections: upgraded connections the application has not closed are closed now
+      if dc.conn.suspended && !dc.conn.inCleanup then
+        let (dc1, o) := apply d dc .upgradeDone
+        (setConn d dc1, out ++ o)
+      else (d, out)
+    else if dc.resuming && dc.conn.suspended then
       let (dc1, o) := apply d { dc with resuming := false } .resume
       (setConn d dc1, out ++ o)
     else (d, out)) (d, [])
@@ -460,7 +487,7 @@ def stopDaemon (d : D) : D × List String :=
 def modelCheck (d : D) : List String :=
   d.conns.reverse.map fun dc =>
     let behs := lookup d.behs dc.idx
-    let (c, log) := run d.cfg harnessApp (Conn.init { behs := behs, resps := d.resps }) dc.trace.reverse
+    let (c, log) := run d.cfg harnessApp (Conn.init { behs := behs, resps := d.resps, upgradeAllowed := d.upgrade }) dc.trace.reverse
     let acc := decide (accepts log)
     let comp := decide (complete log)
     s!"model-check c={dc.idx} accepts={acc} complete={comp || !c.cleaned} fault={c.fault} same={c.state == dc.conn.state}"
@@ -535,13 +562,14 @@ def stepLine (d : D) (ws : List String) : D × List String :=
         | some ("mode", v) => { d with mode := v }
         | some ("timeout", v) => { d with timeoutMs := (v.toNat?.getD 0) * 1000 }
         | some ("suspend", v) => { d with suspend := v == "1" }
+        | some ("upgrade", v) => { d with upgrade := v == "1" }
         | some ("urilog", v) => { d with uriLog := v == "1" }
         | _ => d) d
       (d, ["ok"])
   | ["start"] =>
       if d.mode != "select" && d.mode != "epoll" then (d, ["bad-op"]) else
       ({ d with started := true,
-                cfg := { uriLog := d.uriLog, allowSuspend := d.suspend, epoll := d.mode == "epoll",
+                cfg := { uriLog := d.uriLog, allowSuspend := d.suspend || d.upgrade, epoll := d.mode == "epoll",
                          f9Fixed := f9Fixed, allocBypassFixed := allocBypassFixed,
                          epollBypassFixed := epollBypassFixed, f14Fixed := f14Fixed,
                          f14ClearsAware := f14ClearsAware } }, ["started"])
@@ -575,7 +603,7 @@ def stepLine (d : D) (ws : List String) : D × List String :=
         match c.toNat? with
         | some c =>
             if (findConn d c).isSome then (d, ["bad-op"]) else
-            let app : HApp := { behs := lookup d.behs c, resps := d.resps }
+            let app : HApp := { behs := lookup d.behs c, resps := d.resps, upgradeAllowed := d.upgrade }
             let dc : DConn := { idx := c, conn := Conn.init app, lastActivity := d.now, actSeq := d.seq }
             ({ d with conns := dc :: d.conns, seq := d.seq + 1 }, [s!"arrive c={c}"])
         | none => (d, ["bad-op"])
@@ -617,6 +645,13 @@ def stepLine (d : D) (ws : List String) : D × List String :=
         match c.toNat?.bind (findConn d) with
         | none => (d, ["bad-op"])
         | some dc => (setConn d { dc with resumeIn := none, resuming := true }, ["ok"])
+    | ["up-close", c] =>
+        match c.toNat?.bind (findConn d) with
+        | none => (d, ["bad-op"])
+        | some dc =>
+            if dc.conn.state == CState.upgrade && dc.conn.suspended && !dc.conn.inCleanup && !dc.upClosed then
+              (setConn d { dc with upClosed := true }, ["ok"])
+            else (d, ["bad-op"])
     | ["reply-out", c, rid] =>
         match c.toNat?.bind (findConn d), rid.toNat? with
         | some dc, some rid =>
